@@ -111,6 +111,24 @@ def g_file(a):
     return f"{{| d_dims := {dims}; d_vars := {glist(a['vars'], g_var)}; d_gatts := {g_props(a['gatts'])} |}}"
 
 
+def g_opts(o):
+    o = o or {}
+    return (f"{{| o_conv := {glist(o.get('conv', []), gstr)}; o_desc := {g_props(o.get('desc', {}))}; "
+            f"o_glob := {glist(o.get('glob', []), gstr)}; o_vatt := {glist(o.get('vatt', []), gstr)} |}}")
+
+
+def opts_outside_model(o):
+    """Options the model does not represent (they make the call fail before
+    anything is written; only preservation is judged)."""
+    o = o or {}
+    why = []
+    if any("," in c for c in o.get("conv", [])):
+        why.append("conventions-with-comma")
+    if "Conventions" in o.get("vatt", []) or "Conventions" in o.get("desc", {}):
+        why.append("conventions-as-variable-attribute-or-descriptor")
+    return why
+
+
 def strings_of(obj):
     if isinstance(obj, str):
         yield obj
@@ -167,7 +185,9 @@ def in_model(step):
                 why.append("unmodelled-reference-attribute")
     if not step["s1"]:
         why.append("empty-request")
-    if not all(safe(x) for x in strings_of([step["r"], step["s1"], step.get("before"), step.get("after")])):
+    why += opts_outside_model(step.get("opts"))
+    if not all(safe(x) for x in strings_of([step["r"], step["s1"], step.get("before"), step.get("after"),
+                                            step.get("opts")])):
         why.append("non-ascii")
     return sorted(set(why))
 
@@ -195,7 +215,8 @@ def gen_axis(rng):
     ax = {"name": name, "size": rng.choice([1, 2, 2, 3, 3, 4]), "v": rng.choice([0, 0, 1, 2]),
           "coord": rng.random() < 0.85, "bnd": rng.random() < 0.4, "bv": rng.choice([0, 0, 1]),
           "ncvar": rng.choice([None, None, name, name + "v"]), "ncdim": rng.choice([None, None, name, "d_" + name]),
-          "bncvar": rng.choice([None, None, name + "_bnds"]), "bncdim": rng.choice([None, None, None, "nv"])}
+          "bncvar": rng.choice([None, None, name + "_bnds"]), "bncdim": rng.choice([None, None, None, "nv"]),
+          "unlim": rng.random() < 0.08}
     return ax
 
 
@@ -224,6 +245,14 @@ def gen_grid(rng):
             {"long_name": "aux"}, {"standard_name": "altitude", "units": "m"}, {"long_name": "other aux", "units": "1"}]),
             "ncvar": rng.choice([None, None, "auxv"]), "bnd": rng.random() < 0.25, "bv": 0})
     if n >= 2 and rng.random() < 0.3:
+        # two axes of one size, the first with a 1-d auxiliary coordinate that has bounds: an appended
+        # field may then carry a different coordinate with equal bounds on the other axis (mutate_grid)
+        axes[1]["size"] = axes[0]["size"]
+        if not any(x["axes"] == [0] and x["bnd"] for x in g["aux"]):
+            g["aux"].insert(0, {"axes": [0], "v": 3, "props": rng.choice([{"long_name": "aux"},
+                                                                            {"long_name": "other aux", "units": "1"}]),
+                                "ncvar": rng.choice([None, "auxv"]), "bnd": True, "bv": 0})
+    if n >= 2 and rng.random() < 0.3:
         g["msr"].append({"axes": [0, 1], "v": rng.choice([6, 7]), "ncvar": rng.choice([None, "areacell"]),
                          "props": {"units": "m2"}, "measure": "area"})
     if rng.random() < 0.3:
@@ -240,7 +269,7 @@ def mutate_grid(rng, g, level):
     p = [0.0, 0.35, 0.8][level]
     for a in h["axes"]:
         if rng.random() < p:
-            what = rng.choice(["v", "v", "size", "coord", "bnd", "bv", "props"])
+            what = rng.choice(["v", "v", "size", "coord", "bnd", "bv", "props", "unlim"])
             if what == "v":
                 a["v"] = (a["v"] + 1) % 3
             elif what == "size":
@@ -251,6 +280,8 @@ def mutate_grid(rng, g, level):
                 a["bnd"] = not a["bnd"]
             elif what == "bv":
                 a["bv"] = 1 - a["bv"]
+            elif what == "unlim":
+                a["unlim"] = not a.get("unlim")
             else:
                 a["extra_prop"] = True
         # netCDF names never matter for equality: change them freely
@@ -270,6 +301,13 @@ def mutate_grid(rng, g, level):
     for x in h["msr"]:
         if rng.random() < p:
             x["v"] = x["v"] + 1
+    if len(h["axes"]) >= 2 and h["axes"][0]["size"] == h["axes"][1]["size"] and rng.random() < 0.5:
+        first = [x for x in h["aux"] if x["axes"] == [0] and x["bnd"]]
+        if first and not any(x.get("twin") for x in h["aux"]):
+            # a different coordinate, on the other axis, whose bounds equal those of the first
+            a = first[0]
+            h["aux"].append({"axes": [1], "v": a["v"], "props": dict(a["props"], long_name="twin aux"),
+                             "ncvar": rng.choice([None, "twin"]), "bnd": True, "bv": a["bv"], "twin": True})
     if h["vert"] and rng.random() < p:
         k = rng.choice(["a", "b", "orog", "v"])
         h["vert"][k] = h["vert"][k] + 1
@@ -284,7 +322,7 @@ def mutate_grid(rng, g, level):
 def field_spec(rng, g, fprops, ncvar, v, gl=None, groups=None, fill=None):
     axes, dim, aux, msr = [], [], [], []
     for i, a in enumerate(g["axes"]):
-        axes.append({"size": a["size"], "ncdim": a["ncdim"], "data": True})
+        axes.append({"size": a["size"], "ncdim": a["ncdim"], "data": True, "unlim": bool(a.get("unlim"))})
         if a["coord"]:
             props = dict(COORDS[a["name"]])
             if a.get("extra_prop"):
@@ -391,34 +429,112 @@ def gen_syn_case(rng, cid, fam):
     return {"id": cid, "fam": fam, "s0": s0, "appends": appends}
 
 
+# ---- existing files whose global attributes are not what a default write gives ----
+CONV_EXTRAS = [["ACDD-1.3"], "UGRID-1.0", ["CF-1.6", "ACDD-1.3"], ["my convention"], ["ACDD-1.3", "UGRID-1.0"]]
+DESCRIPTORS = [{"title": "t1"}, {"history": "made by a tool", "campaign": "c"}, {"version": {"i4": [3]}},
+               {"comment": "a file comment", "source": "s1"}, {"levels": {"f8": [1.5, 2.5]}, "institution": "i2"}]
+FOREIGN = [["Conventions", "CF-1.6"], ["Conventions", "CF-1.6 ACDD-1.1"], ["source", "another tool"],
+           ["version", {"i4": [3]}], ["levels", {"f8": [1.5, 2.5]}], ["project", "research"], ["project", "other"],
+           ["foo", "bar"], ["foo", "baz"], ["history", "2001-01-01: created\n2002-02-02: changed"],
+           ["comment", "c1"], ["title", "t2"], ["flags", {"i2": [1, 2, 4]}], ["empty", ""]]
+FORCED = [["foo", "bar"], ["comment", "forced comment"], ["project", "forced project"], ["title", "t1"],
+          ["Conventions", "ACDD-1.3"]]
+APPEND_KW = [{"Conventions": ["ACDD-1.3"]}, {"Conventions": "CF-1.7"}, {"file_descriptors": {"title": "t2"}},
+             {"file_descriptors": {"history": "appended", "foo": "descriptor"}}, {"global_attributes": ["project"]},
+             {"global_attributes": ["foo", "long_name"]}, {"variable_attributes": ["comment"]},
+             {"variable_attributes": ["title", "project"], "global_attributes": ["foo"]}]
+
+
+def decorate_globals(rng, case, p=0.6):
+    """Make the file that exists before the appends carry global attributes
+    that a default write would not produce (Conventions extras, file
+    descriptors, requested and forced global attributes, attributes set by
+    another tool - some with the values the appended fields have, some with
+    other values), and pass write options to some of the append calls."""
+    if rng.random() >= p:
+        return case
+    kw = {}
+    if rng.random() < 0.5:
+        kw["Conventions"] = rng.choice(CONV_EXTRAS)
+    if rng.random() < 0.4:
+        kw["file_descriptors"] = rng.choice(DESCRIPTORS)
+    if rng.random() < 0.25:
+        kw["global_attributes"] = rng.choice([["project"], ["foo", "project"], "long_name"])
+    if rng.random() < 0.12:
+        kw["variable_attributes"] = rng.choice([["comment"], ["title", "source"]])
+    if kw:
+        case["w_kw"] = kw
+    if rng.random() < 0.35:
+        name, val = rng.choice(FORCED)
+        for sp in case["s0"]:
+            if "syn" in sp:
+                sp["syn"].setdefault("gl", {})
+                sp["syn"]["gl"] = dict(sp["syn"]["gl"], **{name: val})
+            else:
+                sp.setdefault("mods", [])
+                sp["mods"] = list(sp["mods"]) + [["global", name, val]]
+    if rng.random() < 0.45:
+        names, out = set(), []
+        for name, val in rng.sample(FOREIGN, rng.choice([1, 2, 3])):
+            if name not in names:
+                names.add(name)
+                out.append([name, val])
+        case["foreign"] = out
+    akw = []
+    for _ in case["appends"]:
+        akw.append(rng.choice(APPEND_KW) if rng.random() < 0.25 else None)
+    if any(akw):
+        case["a_kw"] = akw
+    return case
+
+
 def gen_refusal_case(rng, cid):
     """featureType / groups requests (documented as unsupported or not)."""
     g0 = gen_grid(rng)
     g0["vert"] = None
+    for a in g0["axes"]:
+        a["unlim"] = False          # NETCDF3 allows one unlimited dimension only
     p0 = gen_fprops(rng, 0.1)
     file_ft = rng.choice([None, None, "timeSeries", "trajectory"])
     if file_ft:
         p0["featureType"] = file_ft
     s0 = [field_spec(rng, g0, p0, "q", 20)]
     m = rng.choice([1, 1, 2])
+    mixed = None
+    if file_ft and rng.random() < 0.4:
+        # one request with the featureType of the file and another one (either order, each given as a
+        # property, a forced global attribute or a marked property) - documented as unsupported
+        m = rng.choice([2, 2, 3])
+        other = rng.choice([t for t in ("timeSeries", "trajectory", "profile") if t != file_ft])
+        mixed = [file_ft] * (m - 1) + [other]
+        rng.shuffle(mixed)
     step = []
     for j in range(m):
         fp = gen_fprops(rng, 0.1)
         gl, groups = None, None
         r = rng.random()
-        if r < 0.3:
+        if mixed:
+            how = rng.choice(["prop", "forced", "marked"])
+            if how == "prop":
+                fp["featureType"] = mixed[j]
+            elif how == "forced":
+                gl = {"featureType": mixed[j]}
+            else:
+                gl = {"featureType": None}
+                fp["featureType"] = mixed[j]
+        elif r < 0.3:
             fp["featureType"] = rng.choice(["timeSeries", "trajectory", "profile"])
         elif r < 0.5:
             gl = {"featureType": rng.choice(["timeSeries", "trajectory"])}
         elif r < 0.6:
             gl = {"featureType": None}
             fp["featureType"] = rng.choice(["timeSeries", "trajectory"])
-        if rng.random() < 0.3:
+        if rng.random() < (0.3 if not mixed else 0.0):
             groups = rng.choice([["forecast"], ["a", "b"]])
         step.append(field_spec(rng, mutate_grid(rng, g0, rng.choice([0, 1])), fp, rng.choice(["q", "new"]), 30 + j,
                                gl=gl, groups=groups))
     fmt = rng.choice(["NETCDF4", "NETCDF4", "NETCDF4", "NETCDF3_CLASSIC"])
-    return {"id": cid, "fam": "refusal", "s0": s0, "appends": [step], "fmt": fmt}
+    return decorate_globals(rng, {"id": cid, "fam": "refusal", "s0": s0, "appends": [step], "fmt": fmt}, p=0.35)
 
 
 EX_MODS = [
@@ -453,6 +569,8 @@ def gen_example_cases(rng, n, thorough):
             case["appends"][0][0]["via_file"] = True
         if thorough and rng.random() < 0.3:
             case["appends"].append([{"ex": rng.choice([0, 1, 2]), "mods": [["ncvar", "again"], ["scale", 3.0, 0.0]]}])
+        if k >= 4:
+            decorate_globals(rng, case, p=0.5)
         out.append(case)
     return out
 
@@ -462,7 +580,7 @@ def gen_malformed(rng, n):
     for k in range(n):
         g0 = gen_grid(rng)
         s0 = [field_spec(rng, g0, gen_fprops(rng), "q", 20)]
-        kind = k % 4
+        kind = k % 7
         step = [field_spec(rng, mutate_grid(rng, g0, 1), gen_fprops(rng), "q", 31)]
         case = {"id": f"mal{k}", "fam": "malformed", "s0": s0, "appends": [step]}
         if kind == 0:
@@ -471,8 +589,14 @@ def gen_malformed(rng, n):
             case["fmt_append"] = "NETCDF3_CLASSIC"       # format does not match the file
         elif kind == 2:
             step[0]["syn"]["props"]["_FillValue"] = "not a number"
-        else:
+        elif kind == 3:
             step[0]["syn"]["ncvar"] = "bad name/with slash"
+        else:
+            # write options that are rejected - after the file has been opened for appending (a Conventions
+            # name with a comma) or before (Conventions as a variable attribute or a file descriptor)
+            case["w_kw"] = {"Conventions": ["ACDD-1.3"], "file_descriptors": {"title": "t1"}}
+            case["a_kw"] = [[{"Conventions": ["A,B"]}, {"variable_attributes": ["Conventions"]},
+                             {"file_descriptors": {"Conventions": "CF-1.0"}}][kind - 4]]
         out.append(case)
     return out
 
@@ -487,6 +611,18 @@ CORPUS = [
     # F17d: description-of-file-contents property that the file does not hold
     {"id": "corpus-F17d", "fam": "corpus", "s0": [{"ex": 0}],
      "appends": [[{"ex": 0, "mods": [["prop", "comment", "hello"], ["ncvar", "q2"]]}]]},
+    # seeded C17-s1: one request holding the file's featureType and another one
+    {"id": "corpus-mixed-featureType", "fam": "corpus", "s0": [{"ex": 3}],
+     "appends": [[{"ex": 3, "mods": [["ncvar", "rf"]]}, {"ex": 4}], [{"ex": 4}, {"ex": 3, "mods": [["ncvar", "rf"]]}]]},
+    # seeded C17-s3: a file written with extra Conventions (and descriptors); two successive appends
+    {"id": "corpus-conventions", "fam": "corpus", "s0": [{"ex": 0}],
+     "w_kw": {"Conventions": ["ACDD-1.3"], "file_descriptors": {"title": "t1", "version": {"i4": [3]}}},
+     "appends": [[{"ex": 2}], [{"ex": 7}]]},
+    # a file whose Conventions come from another tool / an older CF version, appended to with a Conventions option
+    {"id": "corpus-foreign-conventions", "fam": "corpus", "s0": [{"ex": 0}],
+     "foreign": [["Conventions", "CF-1.6"], ["history", "made elsewhere"], ["project", "other"]],
+     "a_kw": [{"Conventions": ["ACDD-1.3"], "file_descriptors": {"history": "appended"}}],
+     "appends": [[{"ex": 0, "mods": [["ncvar", "q3"], ["prop", "project", "research"], ["global", "project", None]]}]]},
 ]
 
 
@@ -564,7 +700,12 @@ def signature(case, step, what):
     if what == "new-field":
         idx = (step["oracle"].get("new_missing_idx") or [0])[0]
         sk = s1[idx] if idx < len(s1) else {}
-        if sk.get("refs") and owner_shared(sk, step["r"]):
+        others = [x for i, x in enumerate(s1) if i != idx]
+        if (sk.get("refs") or sk.get("dim")) and (
+                (sk.get("refs") and owner_shared(sk, step["r"] + others))
+                or any(o.get("refs") and owner_shared(o, [sk]) for o in others)):
+            # the owning coordinate equals one of the file, or one of another field of the same request
+            # (then the later field's formula_terms replace the earlier one's)
             return "new-field-differs:formula-terms-on-shared-coordinate"
         if sk.get("anc") or sk.get("refs") or "datum" in sk.get("oom", []):
             return "new-field-differs:formula-terms"
@@ -605,7 +746,10 @@ def oracle(chk, case, res, crashed, stats):
             bad.append(("file-unreadable-after-append", f"netCDF4 cannot open the file afterwards: {orc}"))
         else:
             if not orc.get("gatts_same", True):
-                bad.append(("global-attributes-changed", f"global attributes changed: {step['before']['gatts']} -> {step['after']['gatts']}"))
+                diff = orc.get("gatts_diff") or []
+                bad.append(("global-attributes-changed",
+                            "global attributes changed: " +
+                            "; ".join(f"{a}: {step['before']['graw'].get(a)} -> {step['after']['graw'].get(a)}" for a in diff)))
             if orc.get("dims_lost"):
                 bad.append(("old-dimension-changed", f"dimensions changed: {orc['dims_lost']}"))
             if orc.get("vars_changed"):
@@ -658,14 +802,14 @@ def run(chk, model_ok):
     for i in range(160 if thorough else 40):
         cases.append(gen_refusal_case(rng, f"r{i}"))
     cases += gen_example_cases(rng, 60 if thorough else 22, thorough)
-    cases += gen_malformed(rng, 24 if thorough else 8)
+    cases += gen_malformed(rng, 28 if thorough else 14)
     for c in cases:
         if "fmt_append" in c:
             c["fmt"] = "NETCDF4"
 
     results, crashed = run_cases(chk, cases, per_worker=8 if thorough else 6)
     stats = Counter()
-    lits, lit_src, ref_lits, ref_src = [], [], [], []
+    lits, lit_src, ref_lits, ref_src, cre_lits, cre_src, cov_lits = [], [], [], [], [], [], []
     nontrivial = set()
     shared_stats = Counter()
     samples = []
@@ -677,6 +821,13 @@ def run(chk, model_ok):
             continue
         stats["fam:" + case["fam"]] += 1
         failed = oracle(chk, case, res, crashed, stats)
+        if res.get("created") and "s0" in res and case.get("fmt", "NETCDF4") == "NETCDF4":
+            # the write that made the file: the other side of the guard in _write_global_attributes
+            pseudo = {"r": [], "s1": res["s0"], "before": res["created"], "after": res["created"],
+                      "opts": res.get("w_opts")}
+            if not in_model(pseudo):
+                cre_lits.append(f"({g_opts(res.get('w_opts'))}, {glist(res['s0'], g_field)}, {g_file(res['created'])})")
+                cre_src.append(case)
         for step in res.get("steps", []):
             if "after" not in step or step.get("after") is None or "r" not in step:
                 continue
@@ -697,9 +848,10 @@ def run(chk, model_ok):
                 stats["steps-outside-model"] += 1
                 continue
             stats["steps-in-model"] += 1
-            lits.append(f"({gbool(nc4)}, {g_file(step['before'])}, {glist(step['r'], g_field)}, "
+            lits.append(f"({gbool(nc4)}, {g_opts(step.get('opts'))}, {g_file(step['before'])}, {glist(step['r'], g_field)}, "
                         f"{glist(step['s1'], g_field)}, {g_file(step['after'])}, {gnat(oc)})")
             lit_src.append((case, step["k"], step["k"] in failed))
+            cov_lits.append(f"({g_file(step['before'])}, {glist(step['r'], g_field)})")
             # what makes the step non-trivial: something of the old file is shared or a name collided
             old_names = {v["name"] for v in step["before"]["vars"]}
             newvars = [v for v in step["after"]["vars"] if v["name"] not in old_names]
@@ -727,6 +879,30 @@ def run(chk, model_ok):
                      "model and implementation disagree on the outcome / the file after an append",
                      {"correspondence": "C17.Run.check_case", "input": {"case": case, "step": k},
                       "observed": results[case["id"]]["steps"][k].get("after")})
+        # the hypothesis of C17_old_fields on the real re-read, and the model's reader against cfdm.read
+        for entry, sig, what in (
+                ("check_covers", "model-vs-impl:reread-does-not-cover-file",
+                 "the dry run over what cfdm.read returned does not register every name of the file "
+                 "(hypothesis of C17_old_fields not met)"),
+                ("check_reader", "model-vs-impl:reader",
+                 "the data variables of the file (model reader) are not the variables of the fields cfdm.read returns")):
+            bad = lib.coq_bad_indices("C17", REQ, entry, cov_lits, chunk=100)
+            ncorr += len(cov_lits)
+            stats[entry + "-holds"] = len(cov_lits) - len(bad)
+            for i in bad[:40]:
+                case, k, explained = lit_src[i]
+                chk.fail("correspondence", sig, what,
+                         {"correspondence": "C17.Run." + entry, "input": {"case": case, "step": k},
+                          "observed": results[case["id"]]["steps"][k].get("before")})
+        bad = lib.coq_bad_indices("C17", REQ, "check_created", cre_lits, chunk=60)
+        ncorr += len(cre_lits)
+        stats["created-files-in-model"] = len(cre_lits)
+        for i in bad[:40]:
+            case = cre_src[i]
+            chk.fail("correspondence", "model-vs-impl:created-file",
+                     "model and implementation disagree on the file written with mode 'w' (global attributes included)",
+                     {"correspondence": "C17.Run.check_created", "input": {"case": case, "step": -1},
+                      "observed": results[case["id"]].get("created")})
         bad = lib.coq_bad_indices("C17", REQ, "check_refusal", ref_lits, chunk=200)
         ncorr += len(ref_lits)
         for i in bad[:40]:
